@@ -101,6 +101,25 @@ pub fn base_states(p: &Profile) -> Vec<(String, Vec<Step>)> {
     v
 }
 
+/// A deep, asymmetric ladder: 12 price levels per side around the profile's prices, with
+/// different volumes and order counts per level, so that every published level is populated.
+pub fn deep_ladder(p: &Profile) -> Vec<Step> {
+    let tick = p.tick;
+    let lo = p.prices[0] / tick;
+    let hi = p.prices[p.prices.len() - 1] / tick;
+    assert!(lo > 13);
+    let mut v = Vec::new();
+    for i in 0..12u32 {
+        for k in 0..(i % 3 + 1) {
+            v.push(lim(true, (lo - 1 - i) * tick, i + 1 + k));
+        }
+        for k in 0..((i + 1) % 3 + 1) {
+            v.push(lim(false, (hi + 1 + i) * tick, 2 * i + 2 + k));
+        }
+    }
+    v
+}
+
 fn cfg(label: &str, profile: Profile, depth: usize, monitors: &Monitors, base: Vec<Step>, deadline: Option<Instant>) -> RunCfg {
     RunCfg {
         label: label.to_string(),
@@ -236,6 +255,12 @@ pub fn c01(tier: &str) -> i32 {
         &["op-with-trades", "multi-fill-sweep", "partial-fill-of-resting", "cancel-of-partially-filled", "three-queued-at-one-price"],
         if t { 3000 } else { 50 },
     );
+    crate::absx::run_closure(
+        &mut out,
+        &mon,
+        &crate::absx::ClosureCfg { label: "C01: core actions + create/place", max_rest: if t { 4 } else { 3 }, max_vol: if t { 3 } else { 2 }, modify: false, toggles: false, create: true, redundant: false },
+        t,
+    );
     out.assumptions = vec![
         "reference model (harness/src/refmodel.rs) is the definition of price-time priority".into(),
         "prices beyond three levels / volumes beyond the small set behave like the explored ones (no magnitude-dependent control flow below 2^32)".into(),
@@ -290,6 +315,15 @@ pub fn c02(tier: &str) -> i32 {
     }
     let main = mk("views-tick1", 1, 10);
     with_bases(&mut plans, "main tick 1", &main, 3, if t { 4 } else { 2 });
+    for (tick, l) in [(1u32, 10usize), (3, 10), (1, 24), (2, 5)] {
+        let mut p = mk(&format!("deep-ladder-tick{}", tick), tick, 20);
+        p.limit_vols = vec![1];
+        p.market_vols = vec![2, 40];
+        p.modify_vols = vec![1];
+        p.name = format!("deep-ladder-tick{}", tick);
+        let base = deep_ladder(&p);
+        plans.push(Plan { label: format!("deep 12-level ladder, tick {} levels {}", tick, l), profile: p, levels: l, depth: if t { 3 } else { 2 }, base });
+    }
     execute(
         &mut out,
         plans,
@@ -375,6 +409,12 @@ pub fn c04(tier: &str) -> i32 {
         &["redundant-place", "redundant-cancel", "redundant-modify", "market-rejected", "op:set-time", "cancel-of-partially-filled"],
         if t { 3000 } else { 50 },
     );
+    crate::absx::run_closure(
+        &mut out,
+        &mon,
+        &crate::absx::ClosureCfg { label: "C04: redundant requests on every dead class in every state", max_rest: if t { 3 } else { 2 }, max_vol: 2, modify: true, toggles: true, create: true, redundant: true },
+        t,
+    );
     out.finish()
 }
 
@@ -411,6 +451,12 @@ pub fn c06(tier: &str) -> i32 {
         &mon,
         &["modify-in-place-reduction", "modify-requeue", "modify-that-trades", "redundant-modify", "three-queued-at-one-price"],
         if t { 3000 } else { 50 },
+    );
+    crate::absx::run_closure(
+        &mut out,
+        &mon,
+        &crate::absx::ClosureCfg { label: "C06: every modify shape on every queue rank", max_rest: 3, max_vol: if t { 3 } else { 2 }, modify: true, toggles: false, create: false, redundant: false },
+        t,
     );
     out.assumptions = vec!["reference model encodes the statement: only (no price, smaller volume) keeps the seat".into()];
     out.finish()
@@ -477,6 +523,12 @@ pub fn c13(tier: &str) -> i32 {
         &mon,
         &["market-rejected", "state-crossed", "op:enable", "op:disable", "op-with-trades"],
         if t { 3000 } else { 50 },
+    );
+    crate::absx::run_closure(
+        &mut out,
+        &mon,
+        &crate::absx::ClosureCfg { label: "C13: trading flag in the key (crossed books reachable)", max_rest: if t { 3 } else { 2 }, max_vol: 2, modify: true, toggles: true, create: false, redundant: false },
+        t,
     );
     crate::envprops::c13_env_part(&mut out, t);
     out.finish()
